@@ -294,6 +294,20 @@ impl MachineState {
         )
     }
 
+    /// The poll of a builtin that waits: a pending interrupt becomes the
+    /// builtin's error, so that its instruction throws and does not step
+    /// to the instruction after the handler that backtracking selected.
+    pub(crate) fn interrupt_as_error(&mut self) -> CallResult {
+        if INTERRUPT.swap(false, atomic::Ordering::Relaxed) {
+            let err = self.interrupt_error();
+            let src = functor_stub(atom!("repl"), 0);
+
+            return Err(self.error_form(err, src));
+        }
+
+        Ok(())
+    }
+
     #[inline(always)]
     pub(crate) fn check_for_interrupt(&mut self) -> bool {
         if INTERRUPT.swap(false, atomic::Ordering::Relaxed) {
